@@ -127,6 +127,8 @@ pub struct Gen<'a, 's> {
     /// word-safe definitions whose body begins or ends with a literal: inside a word a reference to one of
     /// them counts as a literal (two literals are never adjacent in a word, also after expansion)
     pub edged: std::collections::BTreeSet<String>,
+    /// words generated so far (twins: the same shape over a permutation of the same literals)
+    pub prev_words: Vec<E>,
 }
 
 pub fn make_vocab(s: &mut Src, p: &Profile) -> Vocab {
@@ -352,8 +354,69 @@ impl<'a, 's> Gen<'a, 's> {
         self.head_for(d)
     }
 
+    /// the same word shape over a permutation of its own literals (and alternatives rotated)
+    fn twin(&mut self, w: &E) -> E {
+        let mut texts: Vec<String> = vec![];
+        w.walk(&mut |e| {
+            if let E::Lit { text, .. } = e {
+                if !texts.contains(text) {
+                    texts.push(text.clone());
+                }
+            }
+        });
+        if texts.len() < 2 {
+            return w.clone();
+        }
+        let rot = 1 + self.s.below(texts.len() - 1);
+        let swap_only = self.s.bool();
+        let map = |t: &str| -> String {
+            let i = texts.iter().position(|x| x == t).unwrap();
+            if swap_only {
+                // swap two literals, keep the rest
+                if i == 0 {
+                    texts[rot].clone()
+                } else if i == rot {
+                    texts[0].clone()
+                } else {
+                    t.to_string()
+                }
+            } else {
+                texts[(i + rot) % texts.len()].clone()
+            }
+        };
+        fn go(e: &E, map: &dyn Fn(&str) -> String, descr_of: &BTreeMap<String, Option<String>>, rotate: bool) -> E {
+            match e {
+                E::Lit { text, .. } => {
+                    let t = map(text);
+                    let d = descr_of.get(&t).cloned().flatten();
+                    E::Lit { text: t, descr: d }
+                }
+                E::Alt(v) if rotate && v.len() > 1 => {
+                    let mut v2: Vec<E> = v.iter().map(|c| go(c, map, descr_of, rotate)).collect();
+                    v2.rotate_left(1);
+                    E::Alt(v2)
+                }
+                _ => e.map_children(&mut |c| go(c, map, descr_of, rotate)),
+            }
+        }
+        let rotate = self.s.bool();
+        go(w, &map, &self.v.descr_of, rotate)
+    }
+
     /// one shell word made of >= 2 juxtaposed pieces
     pub fn word(&mut self, depth: usize) -> E {
+        if !self.p.unique_points && !self.prev_words.is_empty() && self.s.chance(1, 4) {
+            let w = self.s.pick(&self.prev_words).clone();
+            return self.twin(&w);
+        }
+        let w = self.word_fresh(depth);
+        if self.prev_words.len() < 4 {
+            self.prev_words.push(w.clone());
+        }
+        w
+    }
+
+    fn word_fresh(&mut self, depth: usize) -> E {
         let n = 2 + self.s.weighted(&[6, 3, 1]);
         let mut pieces: Vec<E> = vec![];
         let opener = self.s.chance(3, 4);
@@ -507,7 +570,7 @@ const SHELLS: [&str; 4] = ["bash", "fish", "zsh", "pwsh"];
 pub fn gen_clean(s: &mut Src, p: &Profile) -> (G, Vocab) {
     let v = make_vocab(s, p);
     let ndefs = s.below(p.max_defs + 1);
-    let mut g = Gen { s, p: p.clone(), v, budget: p.max_nodes, defs: vec![], avail_from: 0, spec_names: vec![], edged: Default::default() };
+    let mut g = Gen { s, p: p.clone(), v, budget: p.max_nodes, defs: vec![], avail_from: 0, spec_names: vec![], edged: Default::default(), prev_words: vec![] };
     // names and kinds first
     for i in 0..ndefs {
         let ws = g.s.chance(3, 8);
